@@ -24,7 +24,7 @@ CHECKS = {
  "C05": ("exploration",
   "runtime monitoring: offline checker over an event log produced by a ClockedRepo decorator (tree writes, increments, witnesses) plus API-boundary Seen/Reopen/ClocksDeleted events",
   "Random sequences of increments, witnesses, creates, edits, reads, fetch+merge from a second replica, re-opens and clock-file deletions on the persisted and in-memory clocks; the checker replays the log: every written edit time is strictly above everything written, successfully read, merged or rebuilt from before; readings never decrease, also across re-open; rebuilt clocks dominate stored entities. Thorough adds a CLI session with deleted clock files.",
-  "Times of refused or fetched-but-unmerged data are deliberately not counted (the statement says fetched-and-merged). Concurrent increments and witnesses on one clock; merge commits made by the second replica; clocks more than 1 000 000 ahead (open finding)."),
+  "Times of refused or fetched-but-unmerged data are deliberately not counted (the statement says fetched-and-merged). Concurrent increments and witnesses on one clock; merge commits made by the second replica; clocks more than 1 000 000 ahead (open finding). Added: the persisted clock over a file system that fails the next opening for writing or the next write (acknowledged values must survive a re-load)."),
  "C08": ("exploration",
   "runtime monitoring: key-validity reference model vs observed accept/refuse of crafted (identity history, commit, signing mode) pairs in child processes",
   "Identity histories that add, remove and rotate keys at steered logical times are crossed with bug commits at every logical time, written by git-bug itself or crafted (right key, second key, removed key, future key, stranger, unsigned, altered tree/time; create, append and merge commits); a second replica holding only public keys reads and merges them; verdicts are compared with a model that evaluates keys in force at T and verifies the signature over the raw commit.",
@@ -56,11 +56,11 @@ CHECKS = {
  "C16": ("fault_enumeration",
   "runtime monitoring with fault injection: the real GitLab importer against a simulated GitLab API, per-request-identity fault enumeration, dump-comparison oracles",
   "A simulated GitLab (issues, notes incl. edits and system notes, label/state events, users, pagination, updated_after) is the ground truth; rounds import / re-import / grow / import / re-import from zero are compared op by op (idempotence, exactly the new events, incremental = one-shot, ground truth, Validate); for each request identity of a round one failure (403/404/500/drop/truncated body) is injected: an error-relaying run must not advance the cursor and a following clean run must equal a never-failed import.",
-  "The GitHub/Jira/Launchpad importers are not driven. Simulator fidelity to real GitLab is the harness's reading of go-gitlab's types and the importer's parser."),
+  "The GitHub/Jira/Launchpad importers are not driven. Simulator fidelity to real GitLab is the harness's reading of go-gitlab's types and the importer's parser. Added: two imports by one long-lived bridge object; a run slowed by the tracker, whose stored cursor must not be later than the arrival of its first request."),
  "C19": ("fault_enumeration",
   "runtime monitoring: real git-bug processes on one repository under kill/contend schedules, event log checked offline by a one-slot lock reference model",
   "Holder (webui) and contender processes are spawned, signalled (SIGINT/SIGTERM/SIGKILL at build or ready, steered by hook delays) and reaped along generated schedules incl. failing commands, torn lock file and the check/create window; spawn/ready/attempt/signal/exit/lock-content events are checked by the lock model: no two holders, refusals name the holder and change nothing, opens succeed on a free cache, exits leave no lock, a live holder's lock survives.",
-  "Readiness is proven from output lines and socket ownership in /proc, exits from Wait(); no timing oracle. Added: a live opener parked between creating the lock file and writing its pid (hook cache.lock.created + SIGSTOP confirmed in /proc), and holder/opener under different unprivileged uids (skipped and recorded when the harness is not root). Plus a sweep of the binary's whole command tree (39 commands, up to 15 invocation classes each incl. every flag pair): after every reaped invocation the lock file must be gone; hand-over schedules with 2-3 openers, suspended holders and an opener held at one system call."),
+  "Readiness is proven from output lines and socket ownership in /proc, exits from Wait(); no timing oracle. Added: a live opener parked between creating the lock file and writing its pid (hook cache.lock.created + SIGSTOP confirmed in /proc), and holder/opener under different unprivileged uids (skipped and recorded when the harness is not root). Plus a sweep of the binary's whole command tree (39 commands, up to 15 invocation classes each incl. every flag pair): after every reaped invocation the lock file must be gone; hand-over schedules with 2-3 openers, suspended holders and an opener held at one system call; a holder running as process 1 of a pid namespace (unshare/nsenter), where the sandbox allows one."),
  "C06": ("fault_enumeration",
   "runtime monitoring with fault injection: self-SIGKILL before every mutating storage call (decorator), strace SIGKILL at every traced syscall, torn clock files; fresh-process state oracle",
   "For 15 write-path scenarios a dry run records the K mutating storage calls; every prefix is produced by killing the child process immediately before call k (exhaustive per scenario); thorough additionally kills at every mutating syscall position under strace and both tiers tear every clock file. A fresh process re-opens the repository with the clock loader, reads all entities and clocks; the monitor checks old-or-new per entity, clocks against stored times, and that repeating the action completes it.",
@@ -76,7 +76,7 @@ CHECKS = {
  "C17": ("exploration",
   "runtime monitoring: before/after repository snapshots around every generated GraphQL mutation / upload request, mutation list from schema introspection",
   "An in-process handler assembled like the web UI serves a real repository; every mutation field found by introspection is sent with generated valid and invalid arguments with and without an authenticated user; the monitor compares refs, object files, stored operations (independent reader) and cache answers before and after, and the response with the modelled effect.",
-  "Modelled mutation table covers the 9 mutations of the pinned schema; unmodelled ones get the no-user check only. Dirty text inputs are only checked for kind/author, not payload equality. Added: aftermath cases (a refused/invalid request with degenerate prefixes, then probes that load bugs not in memory and a valid mutation on the shared handler); a hang is a violation only when two goroutine dumps show goroutines parked on git-bug locks and nothing runnable, otherwise inconclusive."),
+  "Modelled mutation table covers the 9 mutations of the pinned schema; unmodelled ones get the no-user check only. Dirty text inputs are only checked for kind/author, not payload equality. Added: aftermath cases (a refused/invalid request with degenerate prefixes, then probes that load bugs not in memory and a valid mutation on the shared handler); a hang is a violation only when two goroutine dumps show goroutines parked on git-bug locks and nothing runnable, otherwise inconclusive. Added: prefix-reuse cases (a one-character prefix used while unique, then shared by a bug created by further requests, then used again: refusal, no ref moved)."),
  "C18": ("exploration",
   "runtime monitoring: stress workloads with client-boundary history recording; offline exactly-once/no-phantom/chain checker, linearizability check (exact decider + porcupine), Go race detector, goroutine-dump deadlock classifier, cache-vs-rebuild comparator",
   "2..16 goroutines run generated mixes of cache calls on shared and private bugs in a child process (varying GOMAXPROCS, cache size, loaded/unloaded start, yield/delay injection at hook points between critical sections); every call is recorded at the client boundary; after the run an independent reader checks that every acknowledged operation is stored exactly once in a valid single chain, the per-bug append/read history is linearizable, the cache agrees with a rebuild; crashes and deadlocks are classified from the child's death / goroutine dump; a race build of the same workload reports data races by signature family.",
